@@ -556,6 +556,41 @@ func ruleRetrieveHelper(c *Check, p *Prog, rule string) {
 			}
 		}
 	}
+	// the same tiling written over a chunk counter: Get(ids[b*B:min(b*B+B, len(ids))]) for b = 0 … ⌈len(ids)/B⌉-1
+	counterForm := false
+	var counter *Term
+	var stepK int64
+	if !okChunk && arg.Op == "slice" {
+		lo, hi := arg.Args[1].unconv(), arg.Args[2]
+		base := arg.Args[0].String()
+		if lo.Op == "bin" && lo.Name == "*" {
+			for i := 0; i < 2; i++ {
+				b, k := lo.Args[i].unconv(), lo.Args[1-i].unconv()
+				if b.Op != "phi" || len(b.Args) != 2 || k.Op != "const" {
+					continue
+				}
+				zero, inc := false, false
+				for _, a := range b.Args {
+					if a.Op == "const" && a.Name == "0" {
+						zero = true
+					} else if a.Op == "bin" && a.Name == "+" && a.Args[0].Op == "phi" && a.Args[1].Op == "const" && a.Args[1].Name == "1" {
+						inc = true
+					}
+				}
+				if _, err := fmt.Sscan(k.Name, &stepK); err != nil || !zero || !inc || stepK <= 0 {
+					continue
+				}
+				if hi.IsCall("min") && len(hi.Args) == 2 {
+					h0, h1 := hi.Args[0].String(), hi.Args[1].String()
+					wantA := "(" + arg.Args[1].String() + " + " + k.String() + ")"
+					wantB := "len(" + base + ")"
+					if (h0 == wantA && h1 == wantB) || (h1 == wantA && h0 == wantB) {
+						okChunk, counterForm, counter = true, true, b
+					}
+				}
+			}
+		}
+	}
 	if okChunk {
 		c.OK(rule, "RetrieveWithHelpers ⟂ contiguous-chunks", fnName(fn), p.InstrPos(gets[0].In), "chunks are ids[i:min(i+B,len(ids))] for i = 0, B, 2B, …", true)
 	} else {
@@ -568,8 +603,47 @@ func ruleRetrieveHelper(c *Check, p *Prog, rule string) {
 	boundOut := g.Select(EdgeWhere(func(t *Term, pol bool, n *Node) bool {
 		return !pol && t.Op == "bin" && t.Name == "<" && arg.Op == "slice" && t.Args[0].String() == arg.Args[1].String() && t.Args[1].String() == "len("+arg.Args[0].String()+")"
 	}))
+	if counterForm {
+		// the counter runs while b < N with N = (len(ids) + B - 1) / B
+		isCeil := func(t *Term) bool {
+			t = t.unconv()
+			if t.Op != "bin" || t.Name != "/" || t.Args[1].unconv().Op != "const" || t.Args[1].unconv().Name != fmt.Sprint(stepK) {
+				return false
+			}
+			var sum int64
+			var walk func(x *Term, sign int64) bool
+			seenLen := 0
+			walk = func(x *Term, sign int64) bool {
+				x = x.unconv()
+				switch {
+				case x.Op == "const":
+					var k int64
+					if _, err := fmt.Sscan(x.Name, &k); err != nil {
+						return false
+					}
+					sum += sign * k
+					return true
+				case x.String() == "len("+arg.Args[0].String()+")" && sign == 1:
+					seenLen++
+					return true
+				case x.Op == "bin" && x.Name == "+":
+					return walk(x.Args[0], sign) && walk(x.Args[1], sign)
+				case x.Op == "bin" && x.Name == "-":
+					return walk(x.Args[0], sign) && walk(x.Args[1], -sign)
+				}
+				return false
+			}
+			return walk(t.Args[0], 1) && seenLen == 1 && sum == stepK-1
+		}
+		cb := func(want bool) []*Node {
+			return g.Select(EdgeWhere(func(t *Term, pol bool, n *Node) bool {
+				return pol == want && t.Op == "bin" && t.Name == "<" && t.Args[0].String() == counter.String() && isCeil(t.Args[1])
+			}))
+		}
+		bound, boundOut = cb(true), cb(false)
+	}
 	if len(bound) == 0 || len(boundOut) == 0 {
-		c.Bad(rule, "RetrieveWithHelpers ⟂ all-chunks-before-Success", fnName(fn), p.InstrPos(gets[0].In), "no loop bound i < len(ids) found", nil)
+		c.Bad(rule, "RetrieveWithHelpers ⟂ all-chunks-before-Success", fnName(fn), p.InstrPos(gets[0].In), "no loop bound that covers every chunk found (i < len(ids), or b < ⌈len(ids)/B⌉ for a chunk counter)", nil)
 	} else {
 		// after GetIDs ok with ids non-empty, Success only through the loop-exit edge (all chunks read)
 		c.Decide(rule, "RetrieveWithHelpers ⟂ all-chunks-before-Success", fnName(fn), p.InstrPos(bound[0].In), "Success is returned only through the exit edge of the chunk loop",
